@@ -380,7 +380,7 @@ func (hg *histGen) cfgUsable(c int) bool {
 // the outcome from the bytes that will actually be delivered.
 func (hg *histGen) addTransport(c *CfgSpec) {
 	g := hg.g
-	vias := []string{"reader", "reader", "file", "file_missing", "file_dir"}
+	vias := []string{"reader", "reader", "file", "file", "fifo", "file_missing", "file_dir"}
 	if hg.audit {
 		vias = []string{"reader"}
 	}
@@ -392,6 +392,12 @@ func (hg *histGen) addTransport(c *CfgSpec) {
 		// a torn file: truncated at byte k (or whole)
 		c.Fault = &ReaderFault{ErrAfter: -1, EOFAfter: -1}
 		if g.Chance(0.6) && len(c.Text) > 0 {
+			c.Fault.EOFAfter = g.Intn(len(c.Text))
+		}
+	case "fifo":
+		// a named pipe: no size to stat, bytes arrive in the writer's chunks, the writer may die early
+		c.Fault = &ReaderFault{ErrAfter: -1, EOFAfter: -1, Chunks: []int{g.Range(1, 64)}}
+		if g.Chance(0.3) && len(c.Text) > 0 {
 			c.Fault.EOFAfter = g.Intn(len(c.Text))
 		}
 	case "file_missing", "file_dir":
